@@ -166,7 +166,7 @@ __CPROVER_ensures((WRITTEN && G1 && G2 && g_c1 < g_c2 && CB(g_c1) && CB(g_c2)) =
 __CPROVER_ensures((WRITTEN && GR) ==> (RNB(g_r) ?
    (g_r_seen == 1 && 0 <= g_r_col && g_r_col < nc && CB(CLAMP(g_r_col, nc)) && g_r_kind == RKIND(g_r)) : g_r_seen == 0))
 #else
-/* the clause split off: every name is written as ONE blank-free field (no padding between "x"/"C" and the number) */
+/* the clause kept in its own instance: every name is written as ONE blank-free field (no padding between "x"/"C" and the number) */
 __CPROVER_ensures(g_name_split == 0)
 #endif
 ;
@@ -240,7 +240,7 @@ __CPROVER_ensures((RET == 1 && GR && VALID_NB(v_sr, lhs[g_r], rhs[g_r]) && g_las
 __CPROVER_ensures((RET == 1 && G1 && VALID_NB(v_sc, lower[g_c1], upper[g_c1]) && g_lastc == WKIND_COL(v_sc)) ==>
    NORM(g_loaded_c, lower[g_c1], upper[g_c1]) == NORM(v_sc, lower[g_c1], upper[g_c1]))
 #else
-/* the clause split off for DESIGN.md 6.4: the default name registered for column j is exactly "x<j>", for row i "C<i>"
+/* the clause kept in its own instance (DESIGN.md 6.4): the default name registered for column j is exactly "x<j>", for row i "C<i>"
  * (what getColName/getRowName of the writer print when no names are supplied) */
 __CPROVER_ensures((!usecolnames && G1) ==> (g_regc_cnt == 1 && g_regc_form == 2 && g_regc_lit == 'x' && g_regc_val == g_c1))
 __CPROVER_ensures((!userownames && GR) ==> (g_regr_cnt == 1 && g_regr_form == 2 && g_regr_lit == 'C' && g_regr_val == g_r))
